@@ -27,7 +27,8 @@ UNSUPPORTED = ["single-literal-pre", "top-not-pre", "top-or-pre", "imply", "exis
                "undeclared-neg-pre", "undeclared-neg-eff", "wrong-arity-pre", "wrong-arity-eff", "repeated-arg-pre",
                "repeated-arg-eff", "repeated-arg-fluent", "nested-and-effect", "oneof", "non-and-effect", "multi-var-forall-pre",
                "multi-var-forall-eff", "forall-literal-body-pre", "forall-no-when-eff", "when-in-when", "constant-equality",
-               "nested-forall-pre", "undeclared-function", "forall-in-when-condition", "forall-and-body-eff"]
+               "nested-forall-pre", "undeclared-function", "forall-in-when-condition", "forall-and-body-eff",
+               "wrong-arity-fluent-pre", "wrong-arity-fluent-eff"]
 
 
 def some_pred(rng, w, arity=None):
@@ -211,6 +212,19 @@ def insert_unsupported(rng, w, act, form):
         pairs = [(v, k) for v, t in params for k, kt in w.constants.items() if w.subtype(kt, t)]
         v, k = rng.choice(pairs) if pairs else (params[0][0], rng.choice(list(w.constants)))
         act["pre"] = act["pre"] + [rng.choice([["=", v, k], ["not", ["=", v, k]], ["=", k, v], ["not", ["=", k, v]]])]
+    elif form in ("wrong-arity-fluent-pre", "wrong-arity-fluent-eff"):
+        # a function term with one argument too many, one too few, or none at all
+        if not fterm or len(fterm) < 2:
+            return False
+        other = [v for v, _ in params if v not in fterm[1:]]
+        bad = rng.choice([fterm + [rng.choice(other) if other else "k-extra"], fterm[:-1], fterm[:1]])
+        if bad == fterm or (len(bad) == 1 and len(w.funcs[fterm[0]]) == 0):
+            return False
+        if form.endswith("pre"):
+            act["pre"] = act["pre"] + [[rng.choice([">=", "<"]), bad, "0"]]
+        else:
+            act["eff"] = ["and", [rng.choice(["increase", "assign"]), bad, "1"]] + \
+                         [e for e in act["eff"][1:] if e[0] not in ("assign", "increase", "decrease") or e[1][0] != fterm[0]]
     elif form == "undeclared-function":
         act["pre"] = act["pre"] + [[">=", ["ghostf"], "0"]]
     elif form == "forall-in-when-condition":
